@@ -60,6 +60,9 @@ PROPS = {
  'hybrid MBR points at the boot file of the El Torito Initial Entry': ('C12', 'add_eltorito(A boot); add_eltorito(Z second x86 entry); add_isohybrid: MBR boot-file address = 4 x sector of Z (modes bios2 / efibios2)'),
  'placeholder of a relocated directory gets its continuation area tracked': ('C08', 'depth-8 directory with a 190-character Rock Ridge name: placeholder record CE points at block 0 (deep chain x name length sweep)'),
  'parse the continuation area before a directory record is classified': ('C01', 'depth-8 directory with a 190-character Rock Ridge name: after reopen the directory is listed as a file and cannot be looked up (reported by the C08 sweep through the roundtrip oracle)'),
+ 'decodes every UDF component with its own encoding': ('C20', 'tree unicode-nested with -udf: pycdlib-extract-files wrote to a garbled directory name (FileNotFoundError)'),
+ 'finds a boot image given with a directory': ('C20', 'tree boot-sub with -b isolinux/isolinux.bin: pycdlib-genisoimage raised PyCdlibInvalidInput (Must be a path starting with /)'),
+ 'keeps directories deeper than 7 at -iso-level 4': ('C20', 'tree deep with -iso-level 4 (-J / -udf): directories below depth 7 and the leaf file missing from every view'),
  'resolve a relocated Rock Ridge directory through its link': ('C01', 'two depth-8 directories with the same Rock Ridge name in different parents: the second is missing from the Rock Ridge view (reloc-collide chain)'),
 }
 log = subprocess.run(['git', '-C', '/repo', 'log', '--reverse', '--format=%h\t%s', '1c3f835..HEAD'], stdout=subprocess.PIPE).stdout.decode().strip().splitlines()
